@@ -32,8 +32,8 @@ Print Assumptions C18_scope_targets.
 Theorem C18_scope_rules :
   forall (dry : bool) (g : graph) (d : disk) (rs : list N) (p : path),
     In p (c_report (clean_rules dry g d rs)) ->
-    exists r e, In r rs /\ In r (g_rules g) /\ In e (g_edges g) /\ e_rule e = r /\ e_outs e <> [] /\
-                In p (e_outs e ++ opt_list (e_depfile e) ++ opt_list (e_rspfile e)).
+    exists r e, In r rs /\ In r (g_rules g) /\ In e (g_edges g) /\ e_phony e = false /\ e_rule e = r /\
+                e_outs e <> [] /\ In p (e_outs e ++ opt_list (e_depfile e) ++ opt_list (e_rspfile e)).
 Proof. exact C18_scope_rules. Qed.
 Print Assumptions C18_scope_rules.
 
@@ -91,31 +91,32 @@ Theorem C18_complete_dead :
 Proof. exact C18_complete_dead. Qed.
 Print Assumptions C18_complete_dead.
 
-(* the by-target walk returns on every acyclic graph (default fuel = number of statements + 1) ... *)
-Theorem C18_targets_fuel_sufficient :
+(* the by-target walk is TOTAL: DoCleanTarget inserts the node into cleaned_ before it recurses, so
+   every recursive call consumes a fresh input name; default fuel = number of input occurrences + 1
+   is enough on every graph, cyclic ones included (no acyclicity hypothesis) ... *)
+Theorem C18_targets_total :
   forall (dry : bool) (g : graph) (d : disk) (ts : list path),
-    acyclic g -> clean_targets dry g d ts <> None.
+    exists r, clean_targets dry g d ts = Some r.
 Proof. exact clean_targets_total. Qed.
+Print Assumptions C18_targets_total.
+
+Theorem C18_targets_fuel_sufficient :
+  forall (dry : bool) (g : graph) (d : disk) (ts : list path) (fuel : nat),
+    length (flat_map e_ins (g_edges g)) < fuel -> clean_targets_fuel fuel dry g d ts <> None.
+Proof. exact clean_targets_fuel_sufficient. Qed.
 Print Assumptions C18_targets_fuel_sufficient.
 
-(* ... and on a statement that lists its own output first among its inputs (`build a: r a`) it never
-   returns, whatever the fuel: DoCleanTarget marks a node only after its inputs (the C++ overflows
-   its stack: `ninja -t clean a` dies with SIGSEGV). *)
-Theorem C18_targets_self_loop_diverges :
-  forall (dry : bool) (g : graph) (t : path) (e : edge) (ins : list path),
-    in_edge g t = Some e -> e_ins e = t :: ins ->
-    forall fuel s, ~ In t (c_cleaned s) -> do_clean_target fuel dry g t s = None.
-Proof. exact self_loop_never_finishes. Qed.
-Print Assumptions C18_targets_self_loop_diverges.
+(* ... e.g. on `build 1: r 2`, `build 2: r 1` and the self loop `build 3: r 3` (before the fix of
+   DoCleanTarget the C++ overflowed its stack here): all three outputs are cleaned, once *)
+Example C18_cyclic_terminates :
+  option_map result (clean_targets false Ex.gc Ex.d [Ex.p 1; Ex.p 3]) = Some ([Ex.p 1; Ex.p 2; Ex.p 3], 3, false).
+Proof. exact Ex.cyclic_terminates. Qed.
 
 Example C18_targets_nonvacuous :
-  acyclic Ex.g /\ wf_graph_b Ex.g = true /\
+  wf_graph_b Ex.g = true /\
   option_map result (clean_targets false Ex.g Ex.d [Ex.p 6])
   = Some ([Ex.p 4; Ex.p 21; Ex.p 2; Ex.p 12; Ex.p 20; Ex.p 1], 6, false).
-Proof. split; [exact ex_acyclic|]. split; [exact ex_wf | exact Ex.by_target]. Qed.
-
-Example C18_cyclic_out_of_fuel : clean_targets_fuel 50 false Ex.gc Ex.d [Ex.p 1] = None.
-Proof. exact Ex.cyclic_out_of_fuel. Qed.
+Proof. split; [exact ex_wf | exact Ex.by_target]. Qed.
 
 (* ------------------------------------------------------------------------------------------------ *)
 (* C18_no_source_no_phony (under unique_producer — guaranteed by the manifest parser — and
@@ -138,26 +139,21 @@ Theorem C18_no_source_no_phony_targets :
 Proof. intros dry g d ts r p. exact (C18_no_source_no_phony_targets dry g d (default_fuel g) ts r p). Qed.
 Print Assumptions C18_no_source_no_phony_targets.
 
-(* by rule: as long as no NAMED rule is the rule of a phony statement ... *)
+(* by rule: DoCleanRule skips phony statements, no side condition ... *)
 Theorem C18_no_source_no_phony_rules :
   forall (dry : bool) (g : graph) (d : disk) (rs : list N) (p : path),
     unique_producer g -> aux_paths_disjoint g ->
-    (forall e, In e (g_edges g) -> In (e_rule e) rs -> e_phony e = false) ->
     In p (c_report (clean_rules dry g d rs)) ->
     ~ (node_exists g p = true /\ in_edge g p = None) /\
     ~ (exists e, In e (g_edges g) /\ e_phony e = true /\ In p (e_outs e)).
 Proof. exact C18_no_source_no_phony_rules. Qed.
 Print Assumptions C18_no_source_no_phony_rules.
 
-(* ... REFUTED otherwise: `-t clean -r phony` removes the outputs of phony statements, e.g. the
-   existing source file 5 declared by `build 5: phony`.  (Finding.) *)
-Theorem C18_phony_by_rule_refuted :
-  exists g d rs p,
-    wf_graph_b g = true /\
-    (exists e, In e (g_edges g) /\ e_phony e = true /\ In p (e_outs e)) /\ d p = FFile /\
-    In p (c_report (clean_rules false g d rs)).
-Proof. exact C18_phony_by_rule_refuted. Qed.
-Print Assumptions C18_phony_by_rule_refuted.
+(* ... e.g. `-t clean -r phony` removes nothing: the existing source 5 declared by `build 5: phony`
+   survives (before the fix of DoCleanRule it was deleted) *)
+Example C18_rule_phony_removes_nothing :
+  c_report (clean_rules false Ex.g Ex.d [0%N]) = [] /\ c_disk (clean_rules false Ex.g Ex.d [0%N]) (Ex.p 5) = FFile.
+Proof. exact ex_rule_phony_removes_nothing. Qed.
 
 (* cleandead: what it removes has no producer (hence is no phony name) and no consumer *)
 Theorem C18_no_source_no_phony_dead :
@@ -178,13 +174,8 @@ Example C18_wf_nonvacuous : unique_producer Ex.g /\ aux_paths_disjoint Ex.g /\ o
 Proof. exact (wf_graph_b_sound Ex.g ex_wf). Qed.
 
 Example C18_rules_nonvacuous :
-  (forall e, In e (g_edges Ex.g) -> In (e_rule e) [7%N; 8%N] -> e_phony e = false) /\
   result (clean_rules false Ex.g Ex.d [7%N; 8%N]) = ([Ex.p 2; Ex.p 20; Ex.p 12; Ex.p 4; Ex.p 21], 5, false).
-Proof.
-  split; [|vm_compute; reflexivity].
-  intros e He Hr. cbn in He. destruct He as [<-|[<-|[<-|[<-|[<-|[]]]]]]; try reflexivity;
-    cbn in Hr; destruct Hr as [Hr|[Hr|[]]]; discriminate.
-Qed.
+Proof. vm_compute. reflexivity. Qed.
 
 (* ------------------------------------------------------------------------------------------------ *)
 (* C18_generator: without -g, `clean` (no arguments) removes no generator output ... *)
@@ -204,12 +195,12 @@ Theorem C18_generator_g :
 Proof. exact C18_generator_all_g. Qed.
 Print Assumptions C18_generator_g.
 
-(* ... and by-target / by-rule cleaning have no generator test at all: REFUTED with a well-formed,
-   acyclic witness (`clean all` deletes the generator output 1).  (Finding: the manual says
+(* ... and by-target / by-rule cleaning have no generator test at all: REFUTED with a well-formed
+   witness (`clean all` deletes the generator output 1).  (Finding: the manual says
    generator outputs are "not cleaned by default".) *)
 Theorem C18_generator_by_target_refuted :
   exists g d ts r p,
-    wf_graph_b g = true /\ acyclic g /\
+    wf_graph_b g = true /\
     clean_targets false g d ts = Some r /\
     (exists e, In e (g_edges g) /\ e_generator e = true /\ In p (e_outs e)) /\ In p (c_report r).
 Proof. exact C18_generator_by_target_refuted. Qed.
